@@ -115,11 +115,11 @@ theorem Row.bare_default : Row.bare {} = {} := rfl
 
 theorem bare_table (w : World) (t : Nat) : w.bare.table t = (w.table t).bare := by
   unfold table bare
-  exact getD_map_default Table.bare w.tables t {} {} Table.bare_default
+  exact getD_map_default_eq Table.bare w.tables t {} {} Table.bare_default
 
 theorem bare_row (w : World) (r : Nat) : w.bare.row r = (w.row r).bare := by
   unfold row bare
-  exact getD_map_default Row.bare w.rows r {} {} Row.bare_default
+  exact getD_map_default_eq Row.bare w.rows r {} {} Row.bare_default
 
 theorem bare_rowCells (w : World) (r : Nat) : w.bare.rowCells r = (w.rowCells r).map Cell.bare := by
   unfold rowCells
